@@ -6,6 +6,7 @@ import (
 	"os"
 	"path/filepath"
 	"strings"
+	"time"
 	"unicode/utf8"
 
 	"github.com/apparentlymart/go-versions/versions"
@@ -308,13 +309,13 @@ func manifestDoc(format string, pkgs []mPkg, reg string) string {
 
 func c18Docs(thorough bool) (docs []ManifestArg) {
 	sources := []string{mA, mB, mA + "//sub", "not a url", "", mAalias}
-	locals := []string{"d1", "d2", "", ".", "..", "../x", "a/b", "/abs", "d1/", "..\\x", "../bundle-evil", "d1/../d2", "./d1", "d1/m"}
+	locals := []string{"d1", "d2", "", ".", "..", "../x", "a/b", "/abs", "d1/", "..\\x", "../bundle-evil", "d1/../d2", "./d1", "d1/m", "..data", "..."} // the last two are ordinary names that merely begin with two dots
 	formats := []string{"1", "0", "2", "absent", `"1"`, "1.0", "-1", "18446744073709551617"}
 	src2 := []string{mA, mB, mAalias, "garbage"}
 	loc2 := []string{"d1", "d2", "..", "d1/x", "d1x", "D1"}
 	probes := []string{mA + "//%2e%2e/%2e%2e/outside", mA + "//a%2F..%2F..%2Fx", mA, mA + "//m", mB + "//m/n", mAalias + "//m", "git::https://example.com/zzz.git", mReg + "@1.0.0", mReg + "@1.0.0//m", mReg + "@9.9.9"}
 	add := func(desc, doc string) {
-		docs = append(docs, ManifestArg{Doc: doc, Desc: desc, Probes: probes, Dirs: []string{"d1", "d2", "d1x", "unknown", "D1", "D2"}})
+		docs = append(docs, ManifestArg{Doc: doc, Desc: desc, Probes: probes, Dirs: []string{"d1", "d2", "d1x", "unknown", "D1", "D2", "..data", "..."}})
 	}
 	fs := formats[:1]
 	if thorough {
@@ -450,6 +451,10 @@ func RunC18(tier string) int {
 		for i := range docs {
 			margs[i] = docs[i]
 		}
+		mapOrdBudget = 150 * time.Second
+		if thorough {
+			mapOrdBudget = 20 * time.Minute
+		}
 		st := &mapOrdStats{}
 		exploreMapOrders(0, "manifest", margs, 1, func(_ int, raw json.RawMessage) string { return canonArena(raw) }, // relative probe paths contain the scratch directory name
 			func(i int, choices []int, base, got string, arg MapOrdArg) {
@@ -457,6 +462,9 @@ func RunC18(tier string) int {
 			}, st)
 		rep.Evaluations += st.Runs
 		rep.Extra["map_orders"] = st.summary()
+		if st.Capped {
+			rep.Exhaustive = false
+		}
 		fmt.Printf("  map-order part: documents=%d runs=%d choice points=%d differing=%d\n", st.Tasks, st.Runs, st.Points, st.Differing)
 	}
 	rep.States = len(docs)
